@@ -17,7 +17,7 @@ RULE = ('fault enumeration over valid transcripts T1 minimal, T2 host-key probes
         'DEBUG/IGNORE interleavings, 0-5 pre-banner lines, 1-byte segmentation and two-segment splits, seeded random byte mutations.  Each case is one real audit with -t 1 under the socket monitor.  Oracle: status in {0,1,2,3} and no traceback; '
         'every blocking receive ran under the configured finite timeout, timeouts <= 4 x connections, CPU <= 5 s + 0.5 s x connections; if the first connection carried a valid banner and a strictly decodable KEXINIT the report is complete '
         '(names equal the KEXINIT), otherwise status 1 and no algorithm lines.  Non-trivial: the fault was applied (peer log) and the monitor saw >= 1 receive; distinct = distinct (transcript, connection, message, operator, parameters)')
-REQUIRED = {'fallback_refused_again': 2, 'default_timeout_runs': 4, 'rate_check_runs': 5, 'faults_applied': 300, 'recv_events': 2000, 'expected_report': 100, 'expected_error': 100, 'stall_cases': 10, 'probe_phase_faults': 100}
+REQUIRED = {'clients_connecting_over_ipv6': 5, 'fallback_refused_again': 2, 'default_timeout_runs': 4, 'rate_check_runs': 5, 'faults_applied': 300, 'recv_events': 2000, 'expected_report': 100, 'expected_error': 100, 'stall_cases': 10, 'probe_phase_faults': 100}
 ASSUMPTIONS = ['"terminates" is decided as bounded progress on logical measures (timeouts in force, number of timed-out receives, CPU), never on wall-clock; a watchdog expiry without a deterministic hang signature is inconclusive',
                'well-formed first connection = identification line ending in LF, then zero or more well-framed DEBUG/IGNORE packets, then a well-framed packet of type 20 that the strict decoder accepts (exact trailer)',
                'moduli and keys in generated replies are at most 16384 bits']
@@ -219,6 +219,13 @@ def cases(tier, seed):
             if 'kexinit' in msgs:
                 for o in (1, 4, 5, 6, 100, len(msgs['kexinit'][0]) - 1):
                     cs.append({'T': T, 'op': 'split', 'at': 'kexinit', 'offset': o})
+    # the audited client connects over IPv6 (the listener of a client audit accepts on both families): a well-behaved one, and every 9th fault case of the client transcript
+    k6 = 0
+    for c_ in list(cs):
+        if c_['T'] == 'T6' and not c_.get('default_timeout'):
+            k6 += 1
+            if c_['op'] == 'none' or k6 % (9 if tier == 'quick' else 3) == 0:
+                cs.append(dict(c_, v6=True))
     # the same faults under verbose / debug output (extra code runs on the error paths then); every 4th case, alternating
     out = []
     for i, c in enumerate(cs):
@@ -441,7 +448,7 @@ def run_case(c):
     mon = ['sockets']
     if T == 'T6':
         port = audit.free_port()
-        cp = peermod.ClientPeer(s, port)
+        cp = peermod.ClientPeer(s, port, host='::1' if c.get('v6') else '127.0.0.1')   # the listener accepts on both families
         r = runner.run_cli(['-c', '-p', str(port), '-n'] + ([] if c.get('default_timeout') else ['-t', '2']) + list(c.get('opts', [])), timeout=40 if c.get('default_timeout') else 90, monitors=mon)
         cp.stop()
         p = cp
@@ -454,6 +461,8 @@ def run_case(c):
         r, p = audit.audit_server(s, ['-n'] + ([] if c.get('default_timeout') else ['-t', '1']) + list(c.get('opts', [])), monitors=mon, timeout=40 if c.get('default_timeout') else 120)
         tmo = 5.0 if c.get('default_timeout') else 1.0
     viol, counters = [], {}
+    if c.get('v6'):
+        counters['clients_connecting_over_ipv6'] = 1
     if c.get('eager') and c['op'] == 'then_reset' and 'cannot connect to' in (r.out + r.err):
         # the reset overtook the completion of connect(): the connection attempt itself failed, nothing the peer said was delivered to the tool - not a case of this property
         return {'violations': [], 'counters': {'eager_reset_lost_at_connect': 1}, 'nontrivial': False, 'sample': {'case': c, 'status': r.status}, 'sample_kind': 'lost-at-connect'}
